@@ -438,7 +438,81 @@ func (b *recBus) Packet(_ context.Context, p dnet.Peer, packet *pdkg.GossipPacke
 	if n == nil {
 		return nil, errors.New("no such address")
 	}
+	// what anyone can send to the node's DKG Packet endpoint: just BEFORE the genuine packet arrives
+	// (so in exactly the state in which that kind of packet passes the state checks) the same packet
+	// with a signature that does not verify, and packets of the other kinds forged from its public
+	// content. Whatever the endpoint answers - the gRPC response or error - is an output.
+	for _, f := range missigned(packet) {
+		resp, err := n.proc.Packet(context.Background(), f)
+		kind := "dkg.Packet.missigned." + gossipKind(f)
+		if err != nil {
+			b.w.cap.add(kind+"/response-error", []byte(err.Error()))
+		} else {
+			b.w.cap.recMsg(kind+"/response", resp)
+			b.w.note("dkg: a mis-signed %s packet was ACCEPTED", gossipKind(f))
+		}
+	}
 	return n.proc.Packet(context.Background(), proto.Clone(packet).(*pdkg.GossipPacket))
+}
+
+func gossipKind(p *pdkg.GossipPacket) string {
+	switch p.Packet.(type) {
+	case *pdkg.GossipPacket_Proposal:
+		return "Proposal"
+	case *pdkg.GossipPacket_Accept:
+		return "Accept"
+	case *pdkg.GossipPacket_Reject:
+		return "Reject"
+	case *pdkg.GossipPacket_Abort:
+		return "Abort"
+	case *pdkg.GossipPacket_Execute:
+		return "Execute"
+	case *pdkg.GossipPacket_Dkg:
+		return "DKG"
+	}
+	return "Unknown"
+}
+
+// missigned: variants of a genuine gossip packet that cannot verify. They differ from it (and from
+// each other) in the signature, so the duplicate filter does not drop them.
+func missigned(p *pdkg.GossipPacket) []*pdkg.GossipPacket {
+	if p.GetMetadata() == nil || len(p.GetMetadata().GetSignature()) == 0 {
+		return nil
+	}
+	var out []*pdkg.GossipPacket
+	sigVariant := func(k byte) []byte {
+		s := append([]byte{}, p.Metadata.Signature...)
+		s[len(s)/2] ^= k
+		s[0] ^= k
+		return s
+	}
+	// the same packet, signature damaged
+	c := proto.Clone(p).(*pdkg.GossipPacket)
+	c.Metadata.Signature = sigVariant(0x01)
+	out = append(out, c)
+	// the other kinds, claiming to come from the same sender
+	sender := &pdkg.Participant{Address: p.Metadata.Address}
+	mk := func(k byte, set func(g *pdkg.GossipPacket)) {
+		g := &pdkg.GossipPacket{Metadata: proto.Clone(p.Metadata).(*pdkg.GossipMetadata)}
+		g.Metadata.Signature = sigVariant(k)
+		set(g)
+		out = append(out, g)
+	}
+	if p.GetAccept() == nil {
+		mk(0x02, func(g *pdkg.GossipPacket) {
+			g.Packet = &pdkg.GossipPacket_Accept{Accept: &pdkg.AcceptProposal{Acceptor: sender}}
+		})
+	}
+	mk(0x04, func(g *pdkg.GossipPacket) {
+		g.Packet = &pdkg.GossipPacket_Reject{Reject: &pdkg.RejectProposal{Rejector: sender}}
+	})
+	mk(0x08, func(g *pdkg.GossipPacket) { g.Packet = &pdkg.GossipPacket_Abort{Abort: &pdkg.AbortDKG{Reason: "none"}} })
+	if p.GetExecute() == nil {
+		mk(0x10, func(g *pdkg.GossipPacket) {
+			g.Packet = &pdkg.GossipPacket_Execute{Execute: &pdkg.StartExecution{Time: timestamppb.New(time.Now().Add(time.Hour))}}
+		})
+	}
+	return out
 }
 
 func (b *recBus) BroadcastDKG(_ context.Context, p dnet.Peer, in *pdkg.DKGPacket, _ ...grpc.CallOption) (*pdkg.EmptyDKGResponse, error) {
@@ -618,7 +692,12 @@ func (w *schemeWorld) dkgPart(tmp string, reshare bool) error {
 				sent++
 				if err != nil {
 					refused++
-					w.cap.add(fmt.Sprintf("dkg.BroadcastDKG.forged@%s/error", tag), []byte(err.Error()))
+					w.cap.add(fmt.Sprintf("dkg.BroadcastDKG.forged@%s/response-error", tag), []byte(err.Error()))
+				}
+				// and the same bundle wrapped as a gossip packet (the Packet endpoint forwards it)
+				gp := &pdkg.GossipPacket{Packet: &pdkg.GossipPacket_Dkg{Dkg: f}, Metadata: &pdkg.GossipMetadata{BeaconID: id, Address: n.kp.Public.Addr, Signature: []byte("not-a-signature-not-a-signature-not-a-signature-not-a-signature.")}}
+				if _, err := n.proc.Packet(context.Background(), gp); err != nil {
+					w.cap.add(fmt.Sprintf("dkg.Packet.missigned.DKG@%s/response-error", tag), []byte(err.Error()))
 				}
 			}
 			_ = i
